@@ -29,9 +29,9 @@ EXPLANATION = ("The same k symbolic chunks (arbitrary distinct grid positions, s
                "counts and an arbitrary counter, that MiniShard.next_cmc enumerates exactly the identifiers of the "
                "minishard in increasing order (one inductive step covering histories of any length).")
 BOUNDS = {"quick": "grids up to 3x4x2, bit triples as C04, raw+gzip, k=2 chunks: both orders x both strategies; full grids: raster "
-                   "vs reversed vs shuffled(VERIF_SEED) order; step: 48 (minishard,shard,preshift) triples in [0,21]^3 (10 fixed + 38 drawn with VERIF_SEED), counter "
+                   "vs reversed vs shuffled(VERIF_SEED) order; all 5 chunks of one minishard in each of the 120 store orders x both strategies; step: 48 (minishard,shard,preshift) triples in [0,21]^3 (10 fixed + 38 drawn with VERIF_SEED), counter "
                    "and shard/minishard fields symbolic 64-bit",
-          "thorough": "k=3 (all 6 orders), more grids; step: all 22^3 bit triples"}
+          "thorough": "k=3 (all 6 orders), more grids; all 720 orders of 6 chunks (one / two minishards, compressed index and data); step: all 22^3 bit triples"}
 OUTSIDE = ["minishards with more than 24 identifiers", "real zlib streams"]
 
 
@@ -67,6 +67,13 @@ def configs(tier, seed):
     if tier == "thorough":
         for g, t in (((2, 2, 2), (1, 1, 0)), ((2, 1, 3), (1, 0, 1))):
             out.append(_cfg("relational", g, t, ("gzip", "gzip"), k=3, lens=[1, 0, 2], unstored=False, cost=100, wall=3400))
+    # every store order of all chunks of one minishard (the order is a case split: one permutation per path), both
+    # buffering strategies: 5 chunks (120 orders), thorough also 6 chunks in two minishards / with compressed data
+    out.append(_cfg("orders", (5, 1, 1), (0, 0, 0), ("raw", "raw"), cost=12, wall=1800, max_paths=5000))
+    if tier == "thorough":
+        out.append(_cfg("orders", (3, 2, 1), (0, 0, 0), ("gzip", "gzip"), cost=40, wall=3400, max_paths=5000))
+        out.append(_cfg("orders", (5, 1, 1), (0, 1, 0), ("raw", "gzip"), cost=12, wall=1800, max_paths=5000))
+        out.append(_cfg("orders", (1, 2, 3), (1, 0, 0), ("gzip", "raw"), cost=40, wall=3400, max_paths=5000))
     import random as _r
     rnd = _r.Random(seed)
     if tier == "quick":
@@ -172,6 +179,62 @@ def H_relational(ctx, cfg):
     S.setup(env0)
     sfa = load.mod("sharded_file_accessor")
     _check_reads(ctx, sfa, info, ids, payloads, unstored)
+
+
+def H_orders(ctx, cfg):
+    """All chunks of a small grid stored through the accessor API in an arbitrary order (a permutation chosen by case
+    split) with either buffering strategy: same shard files as the raster order, every chunk read back."""
+    import copy
+    grid = cfg["grid"]
+    cc = _grid_coords(grid)
+    k = len(cc)
+    payloads = [S.payload(f"d{i}", 1 + i % 2) for i in range(k)]
+    ctx.input("payloads", [list(p.bs) for p in payloads])
+    rest, order = list(range(k)), []
+    for i in range(k - 1):
+        j = SInt.var(f"pick{i}", "int")
+        ctx.assume(z3.And(j.e >= 0, j.e < len(rest)))
+        order.append(rest.pop(j.__index__()))
+    order.append(rest.pop())
+    si = SInt.var("strategy", "int")
+    ctx.assume(z3.And(si.e >= 0, si.e <= 1))
+    strategy = ("in memory", "on disk")[si.__index__()]
+    ctx.input("order", [order, strategy])
+    ctx.sample(dict(grid=grid, order=order, strategy=strategy))
+    info = S.make_info(grid, 1, cfg["m"], cfg["s"], cfg["p"], cfg["idx_enc"], cfg["data_enc"])
+    images = []
+    for o, st in ((list(range(k)), "in memory"), (order, strategy)):
+        env = Env()
+        sb, sfa = S.setup(env)
+        acc = sfa.ShardedFileAccessor(S.BASE, strategy=st)
+        acc.info = copy.deepcopy(info)
+        try:
+            for i in o:
+                acc.store_chunk(payloads[i], S.KEY, cc[i])
+            acc.close()
+        except Exception as e:
+            if type(e).__name__ in ("OutsideModel", "Inconclusive"):
+                raise
+            ctx.fail("writer-raised", detail=f"order {o} ({st}): {type(e).__name__}: {e}")
+            return
+        env.run_atexit()
+        images.append((env, S.shard_files(env.fs)))
+    _same_files(ctx, images[0][1], images[1][1], "raster-vs-order")
+    S.setup(images[1][0])
+    sfa = load.mod("sharded_file_accessor")
+    acc = sfa.ShardedFileAccessor(S.BASE)
+    acc.info = copy.deepcopy(info)
+    for i, c in enumerate(cc):
+        try:
+            got = acc.fetch_chunk(S.KEY, c)
+        except Exception as e:
+            if type(e).__name__ in ("OutsideModel", "Inconclusive"):
+                raise
+            ctx.fail("stored-chunk-not-fetchable", detail=f"{c}: {type(e).__name__}: {e}")
+            continue
+        got = got if isinstance(got, SBytes) else SBytes(got)
+        r = (got == payloads[i]) if len(got) == len(payloads[i]) else False
+        ctx.prove(r if isinstance(r, bool) else r.e, "fetch-returns-stored-bytes", detail=str(c))
 
 
 def _grid_coords(grid):
@@ -323,6 +386,11 @@ def replay(cfg, cex):
             orders = [(list(range(len(items))), "in memory"), (list(range(len(items))), "on disk")]
             for perm in itertools.permutations(range(len(items))):
                 orders.append((list(perm), "in memory"))
+        elif h == "orders":
+            cc = _grid_coords(grid)
+            items = [(c, bytes(pl)) for c, pl in zip(cc, inp["payloads"])]
+            unstored = None
+            orders = [(list(range(len(cc))), "in memory"), (list(inp["order"][0]), inp["order"][1])]
         else:
             cc = _grid_coords(grid)
             items = [(eval(c), bytes(pl)) for c, pl in inp["payloads"].items()]
@@ -339,7 +407,7 @@ def replay(cfg, cex):
         for (d, img), (o, s) in zip(imgs[1:], orders[1:]):
             if img != imgs[0][1]:
                 return True, f"shard files differ between store order {orders[0][0]} and {o} ({s})"
-        acc = sfa.ShardedFileAccessor(imgs[0][0])
+        acc = sfa.ShardedFileAccessor(imgs[-1][0] if h == "orders" else imgs[0][0])
         acc.info = copy.deepcopy(info)
         for cc_, pl in items:
             try:
@@ -349,7 +417,7 @@ def replay(cfg, cex):
             if got != pl:
                 return True, f"fetch_chunk{cc_} returned {got!r}, stored {pl!r}"
         try:
-            got = acc.fetch_chunk(S.KEY, unstored)
+            got = acc.fetch_chunk(S.KEY, unstored) if unstored is not None else b""
         except Exception:
             got = b""
         if len(got):
